@@ -77,11 +77,13 @@ Inductive rsimple :=
 | RDotted (a b:name)               (* return type text contains "." : a = first, b = second '.'-component *)
 | RPlain (n:name) (text:string).   (* otherwise: the text, and its number *)
 Inductive rshape := RSeqOf (s:rsimple) | RSetOf (s:rsimple) | RSimple (s:rsimple).
-Record sret := { rt_name : name; rt_isok : bool; rt_atoi : option Z; rt_shape : rshape }.
-   (* rt_name = text before " <: " (or "200"); rt_isok = (it is "ok"); rt_atoi = strconv.Atoi of it *)
+Record sret := { rt_bare : bool; rt_name : name; rt_isok : bool; rt_atoi : option Z; rt_shape : rshape }.
+   (* rt_bare = the payload contains no "<:" (then rt_name is the whole payload, which is also the type text);
+      rt_name = text before " <: "; rt_isok = (rt_name is "ok"); rt_atoi = strconv.Atoi rt_name *)
 Inductive ekey := KRest (method:string) (path:name) | KPlain (n:name).   (* strings.Split(key, " ") has > 1 / 1 tokens *)
 Record sendpoint := { e_key : ekey; e_params : list sparam; e_query : list qparam; e_url : list qparam; e_rets : list sret }.
-Record sapp := { a_name : name; a_types : list (name*sty); a_endpoints : list (name*sendpoint) }.
+Record sapp := { a_name : name; a_n200 : name (* the number of the string "200" *);
+                 a_types : list (name*sty); a_endpoints : list (name*sendpoint) }.
 
 (* ------------------------------------------------------------------ syslwrapper *)
 Inductive wtype := WT (kind:string) (opt:bool) (ref:name*name) (items:list wtype) (enum:list (N*name)) (props:list (name*wtype)).
@@ -144,13 +146,17 @@ Definition map_ret_type tb types appn (s:rshape) : option wtype :=
   | RSimple x => map_simple_ret tb types appn x
   end%string.
 
-Definition map_response tb types appn (rets:list sret) : list (name*wresp) :=
-  fold_left (fun m r => mset (rt_name r) {| wr_isok := rt_isok r; wr_atoi := rt_atoi r; wr_ty := map_ret_type tb types appn (rt_shape r) |} m) rets [].
+Definition map_response tb types appn (n200:name) (rets:list sret) : list (name*wresp) :=
+  fold_left (fun m r =>
+               let ty := map_ret_type tb types appn (rt_shape r) in
+               let keep := negb (rt_bare r) || (t_bare_status_kept tb && match ty with None => true | Some _ => false end) in
+               if keep then mset (rt_name r) {| wr_isok := rt_isok r; wr_atoi := rt_atoi r; wr_ty := ty |} m
+               else mset n200 {| wr_isok := false; wr_atoi := Some 200%Z; wr_ty := ty |} m) rets [].
 
 Definition build_app (tb:tables3) (o:oracle) (a:sapp) : wapp :=
   {| wa_types := mset_all (map (fun kv => (fst kv, map_type o (snd kv))) (range o (a_types a))) [];
      wa_endpoints := mset_all (map (fun kv => (fst kv, {| w_key := e_key (snd kv); w_params := map_params o (snd kv);
-                                                           w_resp := map_response tb (a_types a) (a_name a) (e_rets (snd kv)) |}))
+                                                           w_resp := map_response tb (a_types a) (a_name a) (a_n200 a) (e_rets (snd kv)) |}))
                                    (range o (a_endpoints a))) [] |}.
 
 (* ------------------------------------------------------------------ exporter: schemas *)
@@ -236,12 +242,19 @@ Definition resp_code (r:wresp) : N :=
        end.
 
 Definition export_resp (tb:tables3) (o:oracle) (m:list (N*rvalue)) (e:name*wresp) : list (N*rvalue) :=
-  mset (resp_code (snd e)) (RContent (match wr_ty (snd e) with Some t => Some (export_type tb o t) | None => None end)) m.
+  mset (resp_code (snd e))
+       (match wr_ty (snd e) with
+        | Some t => RContent (Some (export_type tb o t))
+        | None => if t_content_guarded tb then RNoContent else RContent None
+        end) m.
 
 Definition export_operation (tb:tables3) (o:oracle) (e:wendpoint) : operation :=
   let pb := fold_left (export_param tb o) (loop_entries (t_params_loop tb) o (w_params e)) ([], None) in
   {| o_params := fst pb; o_body := snd pb;
-     o_resps := fold_left (export_resp tb o) (loop_entries (t_responses_loop tb) o (w_resp e)) [(0, RNoContent)] |}.
+     o_resps := match loop_entries (t_responses_loop tb) o (w_resp e) with
+                | [] => if t_responses_always tb then [(0, RNoContent)] else []      (* Responses stays nil *)
+                | rs => fold_left (export_resp tb o) rs [(0, RNoContent)]            (* NewResponses() has a default entry *)
+                end |}.
 
 Definition method_code (m:string) : option N :=
   (if String.eqb m "CONNECT" then Some 0 else if String.eqb m "DELETE" then Some 1 else if String.eqb m "GET" then Some 2
